@@ -34,7 +34,7 @@ LEVEL_TEXT = ('Every report tree with up to 3 sub-sections in every shape and ev
               'exactly once on the right page, all toctree entries and image targets resolving, nothing written when a title is rejected.')
 LEVEL_NOTE = 'file system trusted; Sphinx itself is not run (toctree / image resolution is recomputed from the directives).'
 
-TITLES = ['A', 'B', 'index', 'conf', 'figures', 'v1.0', 'v1.5', 'a/b', '..', 'x\0', '']
+TITLES = ['A', 'B', 'index', 'conf', 'figures', 'v1.0', 'v1.5', 'a/b', '..', 'x\0', '', 'A ', 'index ']
 INVALID = {'a/b', '..', 'x\0', '', '.'}
 
 
@@ -108,7 +108,9 @@ def build_report(parents, titles, placement):
     paths = [()] * nsec
     for i, par in enumerate(parents):
         base = paths[par + 1]
-        paths[i + 1] = base + (titles[i],)
+        # the page of a section is named after its titles without surrounding blanks (a toctree entry cannot carry them:
+        # docutils strips every line of a directive's content)
+        paths[i + 1] = base + (titles[i].strip() if titles[i].strip() else titles[i],)
     secs = []
     for sec in reversed(range(nsec)):
         children = [nodes[j + 1] for j, par in enumerate(parents) if par + 1 == sec]
